@@ -1031,10 +1031,76 @@ def warm(args):
 def plan(tier, seed, args):
     n = args.cases if args.cases is not None else (480 if tier == "quick" else 30000)
     every = 24 if tier == "quick" else 12
-    return [{"kind": "history", "seed": derive(seed, PROP, i) % (10**9), "restart": i % every == 0} for i in range(n)]
+    cases = [{"kind": "history", "seed": derive(seed, PROP, i) % (10**9), "restart": i % every == 0} for i in range(n)]
+    if args.cases is None:
+        # enumerated (not seeded): every shallow fault point of the three state-changing calls
+        nconf, npts, chunk = (1, 150, 10) if tier == "quick" else (len(FAULTENUM_SEEDS), 2000, 50)
+        fe = []
+        for fs in FAULTENUM_SEEDS[:nconf]:
+            for target in ("add", "store", "fit"):
+                for k0 in range(1, npts + 1, chunk):
+                    fe.append({"kind": "faultenum", "fseed": fs, "target": target, "k0": k0, "k1": min(k0 + chunk, npts + 1)})
+        cases = fe + cases
+    return cases
+
+
+# ---------------------------------------------------------------------------------
+# fault enumeration: every shallow fault point of add_reactions / store_mol_covs / fit
+# ---------------------------------------------------------------------------------
+FAULTENUM_SEEDS = [11, 23, 37, 58, 71, 94]
+
+
+def faultenum_history(fseed, target, k):
+    """a short session on a seeded configuration in which the call `target` fails at its k-th
+    shallow line (package frames at most 3 deep) and the session recovers the documented way"""
+    rng = Rng(derive("gphist-faultenum", fseed))
+    cfg = gen_cfg(rng)
+    cfg["nsys"] = min(cfg["nsys"], 4)
+    cfg["nsamps"] = [min(n_, 150) if n_ >= 40 else 77 for n_ in cfg["nsamps"][: cfg["nsys"]]]
+    cfg["nspins"] = cfg["nspins"][: cfg["nsys"]]
+    ids = ["sys%d" % i for i in range(cfg["nsys"])]
+    a = [gen_reaction(rng, cfg, ids) for _ in range(3)]
+    b = [gen_reaction(rng, cfg, ids) for _ in range(3)]
+    f = {"fault": k, "fault_shallow": 3}
+    ops = [{"op": "ctrl", "ids": ids[:1], "reduce": True, "npick": 8, "pseed": 5}]
+    ops.append(dict({"op": "store", "ids": list(ids), "get_correlation": True}, **(f if target == "store" else {})))
+    ops.append({"op": "add", "rxns": a})
+    ops.append(dict({"op": "add", "rxns": b}, **(f if target == "add" else {})))
+    if target == "add":
+        ops.append({"op": "add", "rxns": b})  # the interrupted batch is submitted again after the recovery
+    ops.append(dict({"op": "fit", "x": None, "sigma_min": 0.25}, **(f if target == "fit" else {})))
+    ops.append({"op": "lik", "x": None, "sigma_min": 0.25})
+    return {"cfg": cfg, "ops": ops}
+
+
+def run_faultenum(spec):
+    viol, stats, dg = [], Counter(), Digest()
+    seen = set()
+    for k in range(spec["k0"], spec["k1"]):
+        hist = faultenum_history(spec["fseed"], spec["target"], k)
+        wd = tempfile.mkdtemp(prefix="gphist_fe_", dir=os.environ.get("VERIF_SCRATCH", "/tmp"))
+        try:
+            v, st_, d_, summary, state = exec_history(hist, wd)
+        finally:
+            shutil.rmtree(wd, ignore_errors=True)
+        fop = [o for o in hist["ops"] if o.get("fault")][0]
+        if not fop.get("fault_site"):
+            stats["fault_points_beyond_end_of_call"] += 1
+            break
+        stats["fault_points_enumerated"] += 1
+        stats["fits"] += st_["fits"]
+        dg.add(k, fop["fault_site"][0])
+        for x in v:
+            if x["key"] not in seen:
+                seen.add(x["key"])
+                x["detail"] = "fault point %d of %s (%s line %d): %s" % (k, spec["target"], fop["fault_site"][0], fop["fault_site"][1], x["detail"])
+                viol.append(x)
+    return {"digest": dg.hex(), "nontrivial": stats["fault_points_enumerated"] > 0, "violations": viol, "stats": dict(stats), "sample": {"faultenum": [spec["fseed"], spec["target"], spec["k0"], spec["k1"]]}}
 
 
 def run_case(spec):
+    if spec.get("kind") == "faultenum":
+        return run_faultenum(spec)
     return run_history(spec)
 
 
@@ -1124,10 +1190,10 @@ def coverage(done, tier):
     for spec, res in done:
         for k, v in res.get("stats", {}).items():
             tot[k] += v
-        if res.get("sample") and len(samples) < 3:
+        if res.get("sample") and "ops" in res["sample"] and len(samples) < 3:
             samples.append(res["sample"])
         s = res.get("sample")
-        if s:
+        if s and "ops" in s:
             ops = [o["op"] for o in s["ops"]]
             for a, b in zip(ops, ops[1:]):
                 bigrams.add((a, b, s["cfg"]["version"], tuple(k[0] for k in s["kernels"])))
@@ -1157,6 +1223,7 @@ def coverage(done, tier):
         "distinct_op_bigram_x_config_tuples": len(bigrams),
         "faults_injected": {
             "calls_interrupted_at_a_seeded_point": tot["calls_interrupted_by_injected_failure"],
+            "fault_points_enumerated_in_add_store_fit": tot["fault_points_enumerated"],
             "recoveries_after_interrupted_add_reactions": tot["recoveries_after_interrupted_add"],
             "refits_after_interrupted_fit": tot["refits_after_interrupted_fit"],
             "sites": {k[11:]: v for k, v in sorted(tot.items()) if k.startswith("fault_site_")},
